@@ -43,7 +43,16 @@ func c16Load(c *LCase, data []byte, allow bool) (*openapi3.T, error) {
 	doc, err := loader.LoadFromDataWithPath(b, u)
 	// the location belongs to the caller again once the load has returned: what becomes of it is
 	// no concern of the document (InternalizeRefs names components after the location the document was loaded from)
-	u.Path, u.Host, u.Fragment = "/elsewhere/reused.json", "reused.example", "x"
+	// (here: to name another file of the same store, the worst it can become)
+	u.Fragment = "x"
+	for _, f := range c.Files {
+		if f.URI != c.Root {
+			if o, perr := url.Parse(f.URI); perr == nil {
+				u.Scheme, u.Host, u.Path = o.Scheme, o.Host, o.Path
+				break
+			}
+		}
+	}
 	return doc, err
 }
 
